@@ -11,6 +11,7 @@ import (
 	"math/rand"
 	"os"
 	"path/filepath"
+	"runtime/debug"
 	"sort"
 	"strings"
 )
@@ -172,12 +173,17 @@ func (c *Ctx) Branch(name string) { c.Branches[name]++ }
 func (c *Ctx) Fail(key, desc string) {
 	c.Fails++
 	fmt.Fprintf(c.oracle, "FAIL case=%d key=%s :: %s\n", c.curCase, key, strings.ReplaceAll(desc, "\n", " "))
+	// failures are rare: write them through at once, so that a run that dies of a fatal fault afterwards
+	// (memory damaged by the code under test) still leaves the failing inputs it had found
+	_ = c.oracle.Flush()
 }
 
 // Guard runs f and converts a panic into an oracle failure + a "panic" output line for op.
 func (c *Ctx) Guard(op string, f func() string) {
 	var out string
 	func() {
+		// a read through a stale pointer into unmapped memory becomes an ordinary panic of this goroutine
+		defer debug.SetPanicOnFault(debug.SetPanicOnFault(true))
 		defer func() {
 			if r := recover(); r != nil {
 				out = "panic"
